@@ -63,6 +63,16 @@ class UnitW(Unit):
         self.emit_types(out, G)
         self.emit_writers(out, G, probe)
         out.spec('}\n' + TAIL)
+        # all extracted items live in ONE module here, so crate-relative paths of zeep-lib are flattened to the bare item name
+        n = 0
+        for c in out.chunks:
+            if c.origin and 'crate::' in c.text:
+                t2 = re.sub(r'\bcrate::(?:model|error|reader|utils)(?:::\w+)*::(\w+)', r'\1', c.text)
+                if t2 != c.text:
+                    c.text = t2
+                    n += 1
+        if n:
+            out.edits.append(f'crate-relative paths (crate::model::..::Item) flattened to the bare item name in {n} code chunk(s): the unit holds all extracted items in one module')
         return out
 
     # ------------------------------------------------------------------------------------------
